@@ -178,5 +178,5 @@ def run_session(case: dict) -> dict:
         "error": res["error"], "loop_errors": res["loop_errors"], "exceptions": res["exceptions"], "client_error": res["client_error"],
         "access": [a[1:] for a in res["access"]], "closed_at": res["closed_at"], "handler_done": res["handler_done"],
         "h2_error": cr["h2_error"], "h2_goaway": cr["h2_goaway"], "h2_send_error": cr["h2_send_error"], "out_len": len(res["out"]),
-        "stuck_session": res.get("stuck_session", False),
+        "stuck_session": res.get("stuck_session", False), "taps": res.get("taps"), "writes": res.get("writes"),
     }
